@@ -205,7 +205,7 @@ ENDING = [
     ("filenotfound", '(open "/nonexistent-dir-hyverif/x")'),
     # the program installs its own sys.excepthook and then dies: its report must appear in every mode
     ("own-excepthook", '(setv sys.excepthook (fn [t v tb] (print "E: own-hook" t.__name__ :file sys.stderr) (print "hooked" t.__name__)))\n(print "before")\n(raise (KeyError "boom"))'),
-    ("own-excepthook-exit", '(setv sys.excepthook (fn [t v tb] (print "hooked" t.__name__) (sys.exit 7)))\\n(/ 1 0)'),
+    ("own-excepthook-exit", '(setv sys.excepthook (fn [t v tb] (print "hooked" t.__name__) (sys.exit 7)))\n(/ 1 0)'),
 ]
 FIXED_PROGRAMS = [
     ("own-excepthook", '(setv sys.excepthook (fn [t v tb] (print "E: own-hook" t.__name__ :file sys.stderr) (print "hooked" t.__name__)))\n(print "before")\n(raise (KeyError "boom"))'),
